@@ -4,6 +4,7 @@ from the Coq model), specification-level trackers, configuration and session
 generators."""
 import struct
 from lltdgen import *
+import vcommon as V
 
 OWN0 = bytes([2, 0, 0, 0, 0, 0x10])
 def own_of(ctx): return bytes([2, 0, 0, 0, 0, 0x10 + ctx])
@@ -98,7 +99,7 @@ def qlt_fields(fr):
 def frame_of(blk):
     """received frame bytes of a 'frame <ctx> <fill> <hex>' block"""
     t = blk.op.split()
-    return (int(t[1]), bytes.fromhex(t[3]) if t[3] != '-' else b'')
+    return (int(t[1]), V.unhex(t[3]))
 def sends_of(blk):
     """[(ctx, ok, bytes)] in order"""
     return blk.sends()
@@ -107,7 +108,7 @@ def acts_of(blk):
     for a in blk.acts:
         t = a.split()
         if t[0] == 'sleep': r.append(('sleep', int(t[1])))
-        elif t[0] == 'send': r.append(('send', int(t[1]), bytes.fromhex(t[-1]) if t[-1] != 'x' else b''))
+        elif t[0] == 'send' and len(t) >= 3: r.append(('send', int(t[1]) if t[1].lstrip('-').isdigit() else -1, V.unhex(t[-1])))
     return r
 
 # ------------------------------------------------------------------ configuration
